@@ -405,6 +405,31 @@ pub fn gen_c10(run: &mut crate::Run, seed: u64, thorough: bool) {
             }
         }
     }
+    // directed: byte fields whose CONTENT is degenerate (all zero / all 0xff) at every interesting length — an empty optional
+    // field reads back as absent, a non-empty one never does, whatever its content
+    for fill in [0u8, 0xff] {
+        for n in [1usize, 20, 31, 32, 33, 64] {
+            let v = vec![fill; n];
+            let msgs = vec![
+                M::T { tid: [3; 32], src: vec![1], dst: vec![2], amount: 5, data: Some(v.clone()) },
+                M::T { tid: [3; 32], src: v.clone(), dst: v.clone(), amount: 5, data: None },
+                M::D { tid: [3; 32], name: b"N".to_vec(), symbol: b"S".to_vec(), decimals: 7, minter: Some(v.clone()) },
+            ];
+            for m in msgs {
+                for wrap in 0..3 {
+                    let (enc_op, dec_op, tok) = match wrap {
+                        0 => ("abi.enc", "abi.dec", m.tok()),
+                        1 => ("abi.enc_hub", "abi.dec_hub", HM::S(b"ethereum".to_vec(), m.clone()).tok()),
+                        _ => ("abi.enc_hub", "abi.dec_hub", HM::R(b"ethereum".to_vec(), m.clone()).tok()),
+                    };
+                    let o = run.op(&format!("{enc_op} {tok}"), "encode-degenerate-bytes");
+                    if let Some(hexs) = o.strip_prefix("ok x") {
+                        run.op(&format!("{dec_op} {hexs}"), &format!("roundtrip-degenerate-bytes-fill{fill}-len{n}"));
+                    }
+                }
+            }
+        }
+    }
     // unrepresentable messages: negative amounts (the real encoder panics), invalid UTF-8
     for amt in [-1i128, i128::MIN, -(1i128 << 64)] {
         let m = M::T { tid: [1; 32], src: vec![1], dst: vec![2], amount: amt, data: None };
